@@ -398,7 +398,11 @@ func (v *objectBase) unmarshal(p []byte, eof bool, maxElems int) (err error) {
 			return oe.WithMessage(err, fmt.Sprintf("unmarshal prop %v", string(u)))
 		}
 
-		v.Set(string(u), a)
+		// Keep every property read, in wire order, even for a repeated name,
+		// so that Size() is exactly what was consumed.
+		v.lock.Lock()
+		v.properties = append(v.properties, &property{key: u, value: a})
+		v.lock.Unlock()
 		p = p[a.Size():]
 		return nil
 	}
